@@ -22,7 +22,8 @@ MC_Configs  == {Cfg(os, ch, ac[1], ac[2]) : os \in OriginSets, ch \in Chains, ac
 MCQ_Configs == {Cfg(os, ch, ac[1], ac[2]) : os \in {{ZZ, ZA}, {ZRoot, ZA}, {ZA, ZO}}, ch \in {<<"C", "B">>, <<"S", "B">>, <<"B", "C">>, <<"S", "S">>},
                                              ac \in {<<{}, {}>>, <<{P16}, {P8}>>, <<{P16}, {P16}>>}}
 
-QNs == {<<x, a, z>>, ZZ, <<x, o>>, <<x, b, a, z>>}
+\* incl. a leading "*" directly below an origin, a "*" in the middle, a 63-octet label (1000 + c)
+QNs == {<<x, a, z>>, ZZ, <<x, o>>, <<x, b, a, z>>, <<42, a, z>>, <<x, 42, z>>, <<1120, b, a, z>>, <<42>>}
 \* messages that are too short or are responses: the remaining attributes do not matter much
 Dropped(ops) ==
     [short : {TRUE}, qr : BOOLEAN, op : {0}, qd : {0}, qok : {FALSE}, body : {"ok"}, edns : {"none"}, src : {Src1, Src2},
@@ -36,5 +37,5 @@ MC_Requests ==
 MCQ_Requests ==
     Dropped({0, 7})
     \cup [short : {FALSE}, qr : {FALSE}, op : {0, 5, 4, 7}, qd : 0..2, qok : BOOLEAN, body : {"ok", "bad", "unknown"},
-          edns : {"none", "v1"}, src : {Src1, Src2}, qname : {<<x, a, z>>, ZZ, <<x, o>>}, loose : {FALSE}]
+          edns : {"none", "v1"}, src : {Src1, Src2}, qname : {<<42, a, z>>, ZZ, <<x, o>>}, loose : {FALSE}]
 =============================================================================
